@@ -1,6 +1,6 @@
 /* Bit-level reference DES written from FIPS 46-3 (tables typed from the standard,
    not taken from lib/gen-des-tables.c; validated natively against the FIPS KAT by
-   vf/validate_models.py).  Bits are numbered 1..64 from the most significant bit
+   tools/validate_models.sh).  Bits are numbered 1..64 from the most significant bit
    as in the standard.  Used by harness/des_*.c (C17).  */
 #include <stdint.h>
 #include "ref_des.h"
